@@ -417,6 +417,7 @@ def main(argv):
     ap.add_argument("--dev-kani", help="weave + run the Kani harnesses of one unit (development aid; no evidence written)")
     ap.add_argument("--filter", help="with --dev-kani: only harnesses whose name contains this text")
     ap.add_argument("--timeout", type=int, default=0, help="with --dev-kani: per-harness timeout override (s)")
+    ap.add_argument("--thorough-only", action="store_true", help="with --dev-kani --tier thorough: only the harnesses that no quick tier runs")
     a = ap.parse_args(argv)
     if a.setup:
         return setup()
@@ -426,6 +427,20 @@ def main(argv):
         try:
             info = kani.build_crate(wd, [(u["id"], u["kani"])])
             hs = [h for h in u["kani"]["harnesses"] if (not a.filter or a.filter in h["name"]) and (a.tier == "thorough" or h.get("tier", "quick") == "quick")]
+            if a.thorough_only:
+                PR = registry.props()
+
+                def in_some_quick(h):
+                    if h.get("tier", "quick") != "quick":
+                        return False
+                    for pid, P in PR.items():
+                        if u["id"] in P["units"] and _wanted(h, pid) and not any(re.search(x, h["name"]) for x in P.get("quick_skip", [])):
+                            return True
+                    return False
+                hs = [h for h in hs if not in_some_quick(h)]
+                log("thorough-only harnesses: %d" % len(hs))
+                if not hs:
+                    return 0
             run = kani.run_harnesses(info["crate"], [h["full"] for h in hs], jobs=int(os.environ.get("FV_JOBS", "12")),
                                      harness_timeout=a.timeout or max(h.get("timeout", 300) for h in hs))
             if run["json"] is None:
